@@ -22,14 +22,24 @@ def noBadTok (c : List (String × Abs)) (F : List Rect) : Bool :=
 
 set_option maxRecDepth 1000000 in
 theorem noBadTok_pretty_forced :
-    withCert Gen.Rules.rs_indent Gen.Defs.definitions 4
-      (fun c => noBadTok c (allNeedsF (mkCtx Gen.Rules.rs_indent c) Gen.Defs.definitions)) = true := by
+    withCtx Gen.Rules.rs_indent Gen.Defs.definitions 4
+      (fun cx => forceRects (allNeedsF cx Gen.Defs.definitions) fun F => noBadTok cx.cert F) = true := by
   decide +kernel
 
 theorem noBadTok_pretty : noBadTok certPretty followPretty = true := by
   have h := noBadTok_pretty_forced
-  rw [withCert_eq, allNeedsF_eq] at h
+  rw [withCtx_eq, forceRects_eq, allNeedsF_eq] at h
   exact h
+
+/-- a token symbol (even) is the erasure of itself only: occurrence symbols erase to marker symbols (odd) -/
+theorem eraseSym_even {y n : Nat} (h : eraseSym y = 2 * n) : y = 2 * n := by
+  unfold eraseSym at h
+  by_cases hlt : y < 512
+  · rw [if_pos hlt] at h; exact h
+  · rw [if_neg hlt] at h
+    exfalso
+    have h2 : ∀ m : Nat, 2 * m + 1 ≠ 2 * n := by intro m; omega
+    exact h2 _ h
 
 theorem not_bad_of_mem {S : SymSet} (h : (S.bits &&& badSyms.bits) = 0) {x : Sym} (hx : x ∈ S) :
     x ≠ Sym.t .other ∧ x ≠ Sym.t .empty := by
@@ -86,15 +96,19 @@ theorem typed_tokens_sig (indent : Option String) (K : String) (attrs : List (St
     (hw : walkChunks (prettyCfg indent) (.node K attrs) () = .ok (cs, ())) :
     ∀ f ∈ tokenFrags cs, sig f.text ≠ .other ∧ sig f.text ≠ .empty := by
   intro f hf
-  obtain ⟨a, ha, hin⟩ := walkChunks_typed (prettyTyped indent certPretty) followPretty followPretty_closed
+  obtain ⟨a, ha, l, hl, hin⟩ := walkChunks_typed (prettyTyped indent certPretty) followPretty followPretty_closed
     K attrs hwf () cs () hw
   have hnb := noBadTok_pretty
   simp only [noBadTok, Bool.and_eq_true, List.all_eq_true, beq_iff_eq] at hnb
   have hmem : Sym.t (sig f.text) ∈ TokenAdj.syms (prettyCfg indent).hd cs := by
     simp only [TokenAdj.syms, List.mem_map]
     exact ⟨.frag f, frag_of_tokenFrags cs f hf, rfl⟩
+  rw [← hl, List.mem_map] at hmem
+  obtain ⟨y, hy, hey⟩ := hmem
+  have hyt : y = Sym.t (sig f.text) := eraseSym_even hey
+  subst hyt
   have hne : Sym.t (sig f.text) ≠ Sym.t .other ∧ Sym.t (sig f.text) ≠ Sym.t .empty := by
-    rcases inLang_mem hin _ hmem with h | ⟨r, hr, h⟩
+    rcases inLang_mem hin _ hy with h | ⟨r, hr, h⟩
     · obtain ⟨p, hp, rfl⟩ := certOf_mem ha
       exact not_bad_of_mem (hnb.1 p hp) h
     · exact not_bad_of_mem (hnb.2 r hr) h
